@@ -10,6 +10,12 @@ package main
 //	                               every string number from..to-1 of the enumeration of all
 //	                               strings of length <len> over alphabet <alpha> (base-|alpha|
 //	                               digits, most significant first)
+//	crash h <cfg> <codes>          a HISTORY: the lines of the text are evaluated one by one through
+//	                               EvalString on one interpreter (errors do not end it), then the follow-up
+//	                               battery; then the same lines through the REPL line reader
+//	crash v <nvars> <len> <from> <to>
+//	                               every value history number from..to-1: <len> steps over crashStepKinds ×
+//	                               <nvars> variables, each on a fresh interpreter, with the battery
 //	crash r <cfg> <codes>          the text is piped, line by line, into the real Repl()
 //	                               running in a child process (`zyh replchild <cfg>`)
 //
@@ -25,7 +31,7 @@ package main
 //	D  the four stack depths (data,scope,addr,loop) after E; at rest they are 0,1,0,0
 //	F  the follow-up battery (crashFollowUp: def, defn+call, let, for, defmac+call, str of a
 //	   hash, array literal) through EvalString on the interpreter E used, without Clear()
-//	X  ParseTokens of the interpreter's own parser, then EvalExpressions
+//	X  code generation alone: LoadString on a fresh interpreter without the call-budget hook
 //	M  (macexpand <text>) when the text is one expression, else `-`
 //	R  the REPL line path (overlay VerifReplLines: the real line reader, then the loop body),
 //	   the text followed by the lines of the battery
@@ -113,7 +119,7 @@ func crashDenied(text string) bool {
 
 // ---------------------------------------------------------------- interpreters
 
-const crashCallBudget = 20000
+const crashCallBudget = 5000
 
 type crashEnv struct {
 	env      *zygo.Zlisp
@@ -147,6 +153,21 @@ func newCrashEnv(cfg byte) *crashEnv {
 }
 
 func (ce *crashEnv) reset() { ce.calls = 0; ce.timedOut = false }
+
+func newCrashEnvNoHook(cfg byte) *crashEnv {
+	ce := &crashEnv{}
+	switch cfg {
+	case 's':
+		ce.env = zygo.NewZlisp()
+		ce.env.StandardSetup()
+	case 'x':
+		ce.env = zygo.NewZlispSandbox()
+		ce.env.StandardSetup()
+	default:
+		ce.env = zygo.NewZlisp()
+	}
+	return ce
+}
 
 func oneLine(s string) string {
 	s = strings.ReplaceAll(s, "\n", " ")
@@ -351,22 +372,19 @@ func crashAll(cfg byte, text string, full bool, get func() *crashEnv, discard fu
 	for i := 0; i < len(text); i++ {
 		sum += int(text[i])
 	}
-	if full && sum%4 == 0 { // EvalExpressions differs from E only in who calls the parser: a quarter of the texts
-		ce = get()
-		rec.X = ce.guard(func() string {
-			p := ce.env.VerifParser()
-			p.ResetAddNewInput(zygo.VerifStream(text))
-			p.VerifEndInput()
-			xs, err := p.ParseTokens()
-			if err != nil {
+	if full && (strings.Contains(text, "mac") || sum%4 == 0) {
+		// (every text that defines or expands a macro by name, and a quarter of the others)
+		// C: code generation alone (LoadString, nothing is run except macro bodies), on an
+		// interpreter WITHOUT the call-budget hook: a macro that expands into a call of itself
+		// recurses inside the generator; with the hook the budget would end it and hide it
+		cc := newCrashEnvNoHook(cfg)
+		rec.X = cc.guard(func() string {
+			if err := cc.env.LoadString(text); err != nil {
 				return "cerr"
 			}
-			v, err := ce.env.EvalExpressions(xs)
-			return valueClass(v, err)
+			return "ok"
 		})
-		if isBad(rec.X) || rec.X == "timeout" {
-			discard()
-		}
+		func() { defer func() { recover() }(); cc.env.Close() }()
 	}
 	if full && sum%2 == 0 {
 		if nexpr == 1 && strings.HasPrefix(rec.P, "dd/") || strings.HasPrefix(rec.P, "md/") && nexpr == 1 {
@@ -416,7 +434,7 @@ func crashQuiet() {
 	}
 }
 
-var crashWatchdog = 2 * time.Second
+var crashWatchdog = 3 * time.Second
 
 // ---------------------------------------------------------------- enumeration
 
@@ -660,8 +678,149 @@ func crashExec(toks []string) string {
 	return crashExec1(toks)
 }
 
+// crashStackCap: the Go stack limit of the harness process while it runs crash ops. Go's
+// default is 1 GB, which a runaway recursion of the library (a printer, Type(), the macro
+// expander on a value or macro that contains itself) needs 15-50 s to fill — long after the
+// watchdog has called the text non-terminating. With 16 MB the same recursion is a process
+// death ("fatal error: stack overflow", not recoverable) within about a second, and is
+// reported. Scripts are bounded by the call budget (5000 calls: at most ~1700 nested script
+// calls, about 5 MB of Go stack) and generated nesting by the generators (≤ 5000 levels), so
+// no text of the streams comes near the cap legitimately.
+const crashStackCap = 16 << 20
+
+// ---------------------------------------------------------------- value histories
+
+// step kinds of the systematic small-scope histories: %v the variable the step works on, %u
+// the other one. Creation with typed / other-typed / empty / untyped contents, in-place
+// mutation with untyped, self-referential and cross-referential elements, copies that carry
+// the cached element type along, observation (type? caches the type), nesting.
+var crashStepKinds = []string{
+	"(def %v [1 2])", "(def %v [1.5])", "(def %v [])", "(def %v (hash k: 1))", "(def %v (list 1 2))",
+	"(aset %v 0 (list 7 8))", "(aset %v 0 %v)", "(aset %v 0 %u)", "(hset %v k: %u)", "(def %v (rest %u))",
+	"(str (type? %v) %v)", "(def %v [%u])",
+}
+
+var crashVarNames = []string{"a", "b"}
+
+func crashStepText(idx int, nvars int) string {
+	k := idx / nvars
+	v := idx % nvars
+	u := (v + 1) % len(crashVarNames)
+	t := strings.ReplaceAll(crashStepKinds[k], "%v", crashVarNames[v])
+	return strings.ReplaceAll(t, "%u", crashVarNames[u])
+}
+
+// crashHistory: the steps one after another through EvalString on ONE interpreter (an error
+// does not end the history), the value of every step printed, then the follow-up battery.
+func crashHistory(cfg byte, steps []string) (classes []string, bad bool) {
+	ce := newCrashEnv(cfg)
+	defer func() { func() { defer func() { recover() }(); ce.env.Close() }() }()
+	for _, st := range steps {
+		c := ce.guard(func() string {
+			v, err := ce.env.EvalString(st)
+			return valueClass(v, err)
+		})
+		classes = append(classes, c)
+		if isBad(c) {
+			return classes, true
+		}
+		if c == "timeout" || crashHung {
+			return classes, false
+		}
+	}
+	f := ce.guard(func() string { return crashBattery(ce.env) })
+	classes = append(classes, "F:"+f)
+	return classes, isBad(f)
+}
+
+// crash v <nvars> <len> <from> <to>: every history number from..to-1 of <len> steps over
+// crashStepKinds × the first <nvars> variables (the first step always works on variable a:
+// index space |kinds| · (|kinds|·nvars)^(len-1)).
+func crashValueEnum(toks []string) string {
+	if len(toks) != 4 {
+		return "bad-op"
+	}
+	nvars, e0 := strconv.Atoi(toks[0])
+	length, e1 := strconv.Atoi(toks[1])
+	from, e2 := strconv.ParseInt(toks[2], 10, 64)
+	to, e3 := strconv.ParseInt(toks[3], 10, 64)
+	if e0 != nil || e1 != nil || e2 != nil || e3 != nil || nvars < 1 || nvars > len(crashVarNames) || length < 1 || from > to {
+		return "bad-op"
+	}
+	base := int64(len(crashStepKinds) * nvars)
+	counts := map[string]int{}
+	var failing []string
+	for i := from; i < to; i++ {
+		idx := i
+		steps := make([]string, length)
+		for p := length - 1; p >= 1; p-- {
+			steps[p] = crashStepText(int(idx%base), nvars)
+			idx /= base
+		}
+		steps[0] = crashStepText(int(idx%int64(len(crashStepKinds)))*nvars, nvars) // variable a
+		classes, bad := crashHistory('b', steps)
+		if crashHung {
+			failing = append(failing, stringToCodes(strings.Join(steps, "\n"))+"=hang")
+			break
+		}
+		for _, c := range classes {
+			if strings.HasPrefix(c, "F:") {
+				counts["battery-"+classOnly(c[2:])]++
+			} else {
+				counts["step-"+classOnly(c)]++
+			}
+		}
+		if bad {
+			counts["failing"]++
+			if len(failing) < 8 {
+				failing = append(failing, stringToCodes(strings.Join(steps, "\n")))
+			}
+		}
+	}
+	keys := make([]string, 0, len(counts))
+	for k := range counts {
+		keys = append(keys, k)
+	}
+	sort.Strings(keys)
+	var cs []string
+	for _, k := range keys {
+		cs = append(cs, fmt.Sprintf("%s=%d", k, counts[k]))
+	}
+	f := "-"
+	if len(failing) > 0 {
+		f = strings.Join(failing, ",")
+	}
+	return fmt.Sprintf("n=%d c=%s F=%s", to-from, strings.Join(cs, ","), f)
+}
+
+func crashHistoryOp(cfg byte, text string) string {
+	if crashDenied(text) {
+		return "skip"
+	}
+	steps := strings.Split(text, "\n")
+	classes, _ := crashHistory(cfg, steps)
+	if crashHung {
+		return "hang"
+	}
+	// the same history through the REPL line reader (which clears the stacks after an error)
+	ce := newCrashEnv(cfg)
+	r := ce.guard(func() string {
+		_, er, _ := ce.env.VerifReplLines(text + "\n" + strings.Join(crashFollowUp, "\n") + "\n")
+		if er > 0 {
+			return "err"
+		}
+		return "ok"
+	})
+	func() { defer func() { recover() }(); ce.env.Close() }()
+	if crashHung {
+		return "hang"
+	}
+	return "H:" + strings.Join(classes, ",") + " R:" + r
+}
+
 func crashExec1(toks []string) string {
 	crashQuiet()
+	debug.SetMaxStack(crashStackCap)
 	if w := os.Getenv("VERIF_C01_WATCHDOG"); w != "" { // development aid
 		if d, err := time.ParseDuration(w); err == nil {
 			crashWatchdog = d
@@ -673,7 +832,9 @@ func crashExec1(toks []string) string {
 	switch toks[0] {
 	case "e":
 		return crashEnum(toks[1:])
-	case "s", "r":
+	case "v":
+		return crashValueEnum(toks[1:])
+	case "s", "r", "h":
 		if len(toks) != 3 || len(toks[1]) != 1 {
 			return "bad-op"
 		}
@@ -683,6 +844,9 @@ func crashExec1(toks []string) string {
 		}
 		if toks[0] == "r" {
 			return crashRepl(toks[1][0], text)
+		}
+		if toks[0] == "h" {
+			return crashHistoryOp(toks[1][0], text)
 		}
 		return crashText(toks[1][0], text)
 	case "b":
